@@ -57,6 +57,44 @@ def run(cmd, cwd=None, env=None, timeout=None, inp=None):
     return p.returncode, p.stdout
 
 
+def run_watched(cmd, cwd, env, timeout, out_path, stall):
+    """Run the harness; kill it when it times out or when no case has completed (the output file has not
+    grown) for `stall` seconds -- a deadlock in the code under test must not hold the check for the whole
+    timeout.  Returns (rc, output)."""
+    import tempfile
+    with tempfile.TemporaryFile(mode="w+", errors="replace") as log:
+        p = subprocess.Popen(cmd, cwd=cwd, env=env, stdout=log, stderr=subprocess.STDOUT)
+        t0 = last = time.time()
+        size = -1
+        why = None
+        while True:
+            try:
+                p.wait(timeout=1.0)
+                break
+            except subprocess.TimeoutExpired:
+                pass
+            now = time.time()
+            try:
+                sz = os.path.getsize(out_path)
+            except OSError:
+                sz = -1
+            if sz != size:
+                size, last = sz, now
+            if now - t0 > timeout:
+                why = "harness timed out after %ds" % timeout
+            elif now - last > stall:
+                why = "harness stalled: no case completed for %ds (deadlock or hang in the code under test?)" % stall
+            if why:
+                p.kill()
+                p.wait()
+                break
+        log.seek(0)
+        out = log.read()
+    if why:
+        return 124, why + "\n" + out[-4000:]
+    return p.returncode, out
+
+
 # --------------------------------------------------------------------------
 # step 1: regenerate facts
 
@@ -277,11 +315,8 @@ def _run_harness(exe, pkg, test, seed, tier, out_path, replay=None, scale=None, 
     pkgdir = REPO if pkg == "signaling" else os.path.join(REPO, pkg)
     if os.path.exists(out_path):
         os.remove(out_path)
-    try:
-        rc, out = run([exe, "-test.run", "^%s$" % test, "-test.count=1", "-test.timeout=%ds" % timeout],
-                      cwd=pkgdir, env=env, timeout=timeout + 30)
-    except subprocess.TimeoutExpired:
-        rc, out = 124, "harness timed out"
+    rc, out = run_watched([exe, "-test.run", "^%s$" % test, "-test.count=1", "-test.timeout=%ds" % timeout],
+                          pkgdir, env, timeout + 30, out_path, int(os.environ.get("VERIF_STALL", "420")))
     cases = []
     if os.path.exists(out_path):
         for line in open(out_path):
